@@ -486,7 +486,7 @@ def rule(rep, program: Program, tier: str, prop: str, rule_id: str, side: str):
     cache = getattr(program, "_stateproto_cache", None)
     if cache is None:
         try:
-            cache = explore_all(program, 1500 if tier != "thorough" else 40000)
+            cache = explore_all(program, 3000 if tier != "thorough" else 150000)
         except _Unsupported as exc:
             cache = exc
         program._stateproto_cache = cache
